@@ -153,6 +153,61 @@ def _loc_table(ctx, m):
     return out, n_ok, n_ref
 
 
+def _address_map_table(ctx, m):
+    """Histories of SoCCSRHandler.address_map calls (what CSRBankArray asks while the SoC is finalised): clients are (module name,
+    memory or None) over two modules, one of them optionally given a location beforehand (fixed or automatic); every sequence of up
+    to three requests, interpreted on a model handler whose add / alloc / address_map are the repository's own.  Every distinct
+    client must end up with its own location, a repeated request must return the same one.  ([(kind, text)], #calls)"""
+    import itertools
+    from .. import pyconst
+    from ..pyconst import NS, Native
+    base, sub = m.classes["SoCLocHandler"], m.classes["SoCCSRHandler"]
+    silent = Native(lambda *a, **k: None)
+    out, n_calls = [], 0
+    clients = [("p", None), ("p", "buf"), ("q", None), ("q", "mem")]
+    for pre in (None, ("p", 1), ("p", None), ("q", 0)):
+        for k in (1, 2, 3):
+            for seq in itertools.product(clients, repeat=k):
+                me = NS(name="csr", locs={}, n_locs=8, logger=NS(info=silent, error=silent, warning=silent))
+                try:
+                    pyconst.bind(me, base, ["add", "alloc"])
+                    pyconst.bind(me, sub, ["address_map"])
+                except KeyError as ex:
+                    ctx.need(False, f"SoCCSRHandler: method {ex} vanished")
+                hist = []
+                try:
+                    if pre is not None:
+                        hist.append(f"add({pre[0]!r}, n={pre[1]})")
+                        me["add"].fn(pre[0], n=pre[1])
+                    got = {}
+                    for nm, mem in seq:
+                        hist.append(f"address_map({nm!r}, {'None' if mem is None else '<Memory ' + mem + '>'})")
+                        r = me["address_map"].fn(nm, None if mem is None else NS(name_override=mem))
+                        n_calls += 1
+                        what = " ; ".join(hist)
+                        if (nm, mem) in got and got[(nm, mem)] != r:
+                            out.append(("stable", f"{what}: the same client is given location {r} after {got[(nm, mem)]}"))
+                            break
+                        got[(nm, mem)] = r
+                        if not isinstance(r, int) or isinstance(r, bool) or not 0 <= r < 8:
+                            out.append(("range", f"{what}: returns {r!r}"))
+                            break
+                        if pre is not None and pre[1] is not None and (nm, mem) == (pre[0], None) and r != pre[1]:
+                            out.append(("fixed", f"{what}: the location fixed beforehand ({pre[1]}) is not the one returned ({r})"))
+                            break
+                        if len(set(got.values())) != len(got):
+                            dup = sorted((c for c in got if list(got.values()).count(got[c]) > 1), key=str)
+                            out.append(("unique", f"{what}: clients {dup} share CSR location {got[dup[0]]} (table {dict(me['locs'])}): one "
+                                                  f"page is built into two banks"))
+                            break
+                except pyconst.Raised:
+                    out.append(("refused", f"{' ; '.join(hist)}: refused although 8 locations are free"))
+                except pyconst.Unknowable as ex:
+                    ctx.need(False, f"SoCCSRHandler.address_map cannot be interpreted on a model handler ({ex})")
+    ctx.analysed["paths"] += n_calls
+    return out, n_calls
+
+
 _REGION_POOL = {
     # name: request (origin None = automatic); the IO window of the model bus is what the history declares
     "io_hi":   dict(origin=0x80, size=0x80, io=True, cached=False),
@@ -425,6 +480,18 @@ def run(ctx):
         ctx.ob("A1", SOC, "SoCBusHandler.do_finalize", role, not bad, "" if not bad else f"{bad[0][1]} ({len(bad)} of the bus descriptions)",
                m.method("SoCBusHandler", "do_finalize"))
 
+    # ================= A1: SoCCSRHandler.address_map (histories interpreted, see _address_map_table)
+    amap, n_am = _address_map_table(ctx, m)
+    fn_am = m.method("SoCCSRHandler", "address_map")
+    ctx.analysed["functions"].add(f"{SOC}::SoCCSRHandler.address_map")
+    ctx.ob("A1", SOC, "SoCCSRHandler.address_map", "histories:present", n_am >= 500, f"only {n_am} calls interpreted", fn_am)
+    for kind, role in (("unique", "every CSR client (module, or module + memory) gets a location of its own"),
+                       ("stable", "a repeated request returns the same location"),
+                       ("fixed", "a location fixed beforehand is the one used"),
+                       ("range", "locations are integers inside range(n_locs)"),
+                       ("refused", "no request is refused while locations are free")):
+        bad = [x for x in amap if x[0] == kind]
+        ctx.ob("A1", SOC, "SoCCSRHandler.address_map", role, not bad, "" if not bad else f"{bad[0][1]} ({len(bad)} histories)", fn_am)
     # ================= A1/A3: SoCLocHandler.add / alloc (histories interpreted, see _loc_table)
     fn = m.method("SoCLocHandler", "add")
     ctx.analysed["functions"].add(f"{SOC}::SoCLocHandler.add")
